@@ -22,7 +22,8 @@ def run(ck):
         ck.analysed(units=[key], functions=[f'{key}:{fname}'])
         symbols, class_of, classes = lp.alphabet([tu.fn(fname)])
         spec = LP.local_spec(mode)
-        for term in (0x40, 0x00):
+        terms = (0x40, 0x00) if ck.tier == 'quick' else tuple(sorted(set([0x40, 0x00] + [t for t in symbols if isinstance(t, int) and t < 0x100])))
+        for term in terms:
             jobs.append(lp.spec_task(tu, (lambda tu, fname: (lambda term: scanex.ScannerMachine(tu, fname, term)))(tu, fname), spec, symbols, term))
             meta.append((mode, key, fname, tu, symbols))
     res = forkmap.forkmap(jobs)
@@ -34,5 +35,5 @@ def run(ck):
                    'class_representatives': [scanex.show([s]) for s in symbols][:60]})
     for c in LP.READING_CHOICES: ck.assume('spec reading: ' + c)
     ck.assume('ctype predicates (iscntrl, ...) are applied to ASCII bytes only (the extractor checks the isascii guard), where every glibc locale agrees with the C locale')
-    ck.assume('the byte at *end is "@" (address context) or NUL (direct API call on a NUL-terminated local part)')
+    ck.assume('quick tier: the byte at *end is "@" (address context) or NUL (direct API call on a NUL-terminated local part); thorough tier: every byte class as the byte at *end (direct API calls on arbitrary ranges)')
     ck.notes.append('Exploration is exhaustive over the finite joint configuration space (scanner state x spec state x committed look-ahead window), so the verdict holds for every string length.')
